@@ -1,6 +1,7 @@
 package siocheck
 
 import (
+	"bytes"
 	"context"
 	"encoding/json"
 	"fmt"
@@ -10,6 +11,7 @@ import (
 
 	"github.com/Comcast/sheens/core"
 	"github.com/Comcast/sheens/crew"
+	"github.com/Comcast/sheens/sio"
 	"pgregory.net/rapid"
 	"verif/lib/crewh"
 	"verif/lib/ev"
@@ -61,7 +63,15 @@ type RouteCase struct {
 	// again: its walks end at the step limit, with the next message still
 	// unconsumed.  That is that machine's business only.
 	Slow bool `json:"slow,omitempty"`
+	// Renamed: the host has given the crew's service machines other ids
+	// (sio.TimersMachine and sio.CaptainMachine are exported variables)
+	// before it made the crew: "clock" and "boss".  Everything said about
+	// "timers" and "captain" holds for those names then.
+	Renamed bool `json:"renamed,omitempty"`
 }
+
+// the ids of the service machines in the case that is running
+var svcTimers, svcCaptain = "timers", "captain"
 
 func slowSpec() *core.Spec {
 	return &core.Spec{Name: "slow", Nodes: map[string]*core.Node{
@@ -225,6 +235,7 @@ func genRoute(t *rapid.T) RouteCase {
 	c.Ghost = rapid.IntRange(0, 3).Draw(t, "ghost") == 0
 	c.Slow = rapid.IntRange(0, 3).Draw(t, "slow") == 0
 	c.Spawn = rapid.IntRange(0, 2).Draw(t, "spawn") == 0
+	c.Renamed = rapid.IntRange(0, 5).Draw(t, "renamed") == 3
 	spawning = c.Spawn
 	defer func() { spawning = false }()
 	for i := rapid.IntRange(1, 6).Draw(t, "nm"); i > 0; i-- {
@@ -303,6 +314,22 @@ func depthOf(msg interface{}) float64 {
 }
 
 func checkRoute(c RouteCase) (v ev.Verdict) {
+	if c.Renamed {
+		// the case speaks of "timers" and "captain"; translate it
+		js, _ := json.Marshal(c)
+		js = bytes.ReplaceAll(js, []byte(`"timers"`), []byte(`"clock"`))
+		js = bytes.ReplaceAll(js, []byte(`"captain"`), []byte(`"boss"`))
+		c = RouteCase{}
+		json.Unmarshal(js, &c)
+		oldT, oldC := sio.TimersMachine, sio.CaptainMachine
+		sio.TimersMachine, sio.CaptainMachine = "clock", "boss"
+		svcTimers, svcCaptain = "clock", "boss"
+		defer func() {
+			sio.TimersMachine, sio.CaptainMachine = oldT, oldC
+			svcTimers, svcCaptain = "timers", "captain"
+		}()
+		v.Class("renamed-service-machines")
+	}
 	ctx, cancel := context.WithCancel(context.Background())
 	defer cancel()
 	limit := 100
@@ -377,10 +404,10 @@ func checkRoute(c RouteCase) (v ev.Verdict) {
 			first = false
 			tg := targets(live, cur)
 			if m, ok := cur.(map[string]interface{}); ok {
-				if to, ok := m["to"].(string); ok && (to == "timers" || to == "captain") {
+				if to, ok := m["to"].(string); ok && (to == svcTimers || to == svcCaptain) {
 					svcAddressed[to] = true
 				}
-				if to, _ := m["to"].(string); to == "captain" {
+				if to, _ := m["to"].(string); to == svcCaptain {
 					// the captain executes crew operations when their
 					// turn in the queue comes
 					if up, ok := m["update"].(map[string]interface{}); ok {
@@ -536,7 +563,7 @@ func checkRoute(c RouteCase) (v ev.Verdict) {
 	}
 	// service machines only see what is addressed to them: the
 	// timers machine never takes an unaddressed message
-	for _, svc := range []string{"timers", "captain"} {
+	for _, svc := range []string{svcTimers, svcCaptain} {
 		if svcAddressed[svc] {
 			continue
 		}
